@@ -1,5 +1,5 @@
 import numpy
-from scipy.interpolate import interp2d,RectBivariateSpline
+from scipy.interpolate import RectBivariateSpline
 #a lookup dict for interp2d order (expressed as 'kind')
 INTERP_KIND = {1: 'linear', 3:'cubic', 5:'quintic'}
 
@@ -32,28 +32,27 @@ def zoom(array, newSize, order=3):
     coordsX = numpy.linspace(0, array.shape[0]-1, xSize)
     coordsY = numpy.linspace(0, array.shape[1]-1, ySize)
 
+    # scipy removed interp2d: RectBivariateSpline is its replacement for data on
+    # a regular grid (same splines; takes the coordinates in array-axis order)
     #If array is complex must do 2 interpolations
     if array.dtype==numpy.complex64 or array.dtype==numpy.complex128:
 
-        realInterpObj = interp2d(   numpy.arange(array.shape[0]),
-                numpy.arange(array.shape[1]), array.real, copy=False, 
-                kind=INTERP_KIND[order])
-        imagInterpObj = interp2d(   numpy.arange(array.shape[0]),
-                numpy.arange(array.shape[1]), array.imag, copy=False,
-                kind=INTERP_KIND[order])                 
-        return (realInterpObj(coordsY,coordsX) 
-                            + 1j*imagInterpObj(coordsY,coordsX))
-
-        
+        realInterpObj = RectBivariateSpline(
+                numpy.arange(array.shape[0]), numpy.arange(array.shape[1]),
+                array.real, kx=order, ky=order)
+        imagInterpObj = RectBivariateSpline(
+                numpy.arange(array.shape[0]), numpy.arange(array.shape[1]),
+                array.imag, kx=order, ky=order)
+        return (realInterpObj(coordsX, coordsY)
+                            + 1j*imagInterpObj(coordsX, coordsY))
 
     else:
 
-        interpObj = interp2d(   numpy.arange(array.shape[0]),
-                numpy.arange(array.shape[1]), array, copy=False,
-                kind=INTERP_KIND[order])
+        interpObj = RectBivariateSpline(
+                numpy.arange(array.shape[0]), numpy.arange(array.shape[1]),
+                array, kx=order, ky=order)
 
-        #return numpy.flipud(numpy.rot90(interpObj(coordsY,coordsX)))
-        return interpObj(coordsY,coordsX) 
+        return interpObj(coordsX, coordsY)
 
 def zoom_rbs(array, newSize, order=3):
     """
